@@ -10,7 +10,8 @@
 (* Message / Prompt (same shape):                                           *)
 (*   CLookup   RLock; holder, ok := registry[id]; RUnlock                   *)
 (*   CAcquire  prompter, ok := <-holder      (blocks while empty and open)  *)
-(*   CEnter/CExit  prompter.Message / prompter.Prompt                       *)
+(*   InvokeOK / InvokeFails  prompter.Message / prompter.Prompt returns nil  *)
+(*             or an error                                                  *)
 (*   CPutBack  holder <- prompter            (panics if the holder is closed)*)
 (* UnregisterPrompter:                                                      *)
 (*   URemove   Lock; delete(registry, id); Unlock                           *)
@@ -24,12 +25,12 @@ EXTENDS PromptProps, FiniteSets, TLC
 CONSTANTS Callers, MaxCalls, Prompts
 
 VARIABLE s
-(* registered, tok, closed, cpc[c] in idle/have/in/putback, calls[c], text[c],
+(* registered, tok, closed, cpc[c] in idle/have/in/putback, calls[c], text[c], failed[c],
    upc in idle/removed/got/returned, panics, lastMode, bad *)
 
 Init == s = [registered |-> TRUE, tok |-> 1, closed |-> FALSE,
              cpc |-> [c \in Callers |-> "idle"], calls |-> [c \in Callers |-> 0],
-             text |-> [c \in Callers |-> ""],
+             text |-> [c \in Callers |-> ""], failed |-> [c \in Callers |-> FALSE],
              upc |-> "idle", panics |-> 0, bad |-> {}]
 
 InPrompter == {c \in Callers : s.cpc[c] = "in"}
@@ -54,16 +55,23 @@ CAcquire(c) ==
      \/ /\ s.tok = 0 /\ s.closed                          \* "unable to acquire prompter"
         /\ s' = [s EXCEPT !.cpc[c] = "idle", !.text[c] = ""]
 
-CExit(c) ==
+\* the prompter's method returns: successfully, or with an error (Message/Prompt then wrap the
+\* error - but only AFTER the prompter went back into the holder: both outcomes take the same
+\* CPutBack step, exactly once)
+InvokeOK(c) ==
   /\ s.cpc[c] = "in"
   /\ s' = [s EXCEPT !.cpc[c] = "putback"]
+
+InvokeFails(c) ==
+  /\ s.cpc[c] = "in"
+  /\ s' = [s EXCEPT !.cpc[c] = "putback", !.failed[c] = TRUE]
 
 CPutBack(c) ==
   /\ s.cpc[c] = "putback"
   /\ \/ /\ s.closed                                       \* send on closed channel
-        /\ s' = [s EXCEPT !.cpc[c] = "idle", !.text[c] = "", !.panics = 1]
+        /\ s' = [s EXCEPT !.cpc[c] = "idle", !.text[c] = "", !.panics = 1, !.failed[c] = FALSE]
      \/ /\ ~s.closed /\ s.tok = 0
-        /\ s' = [s EXCEPT !.cpc[c] = "idle", !.text[c] = "", !.tok = 1]
+        /\ s' = [s EXCEPT !.cpc[c] = "idle", !.text[c] = "", !.tok = 1, !.failed[c] = FALSE]
 
 URemove ==
   /\ s.upc = "idle" /\ s.registered
@@ -78,8 +86,8 @@ UClose ==
   /\ s' = [s EXCEPT !.upc = "returned", !.closed = TRUE, !.panics = IF s.closed THEN 1 ELSE @]
 
 Next == URemove \/ UTake \/ UClose
-        \/ \E c \in Callers : CLookup(c) \/ CAcquire(c) \/ CExit(c) \/ CPutBack(c)
-Steps(c) == CAcquire(c) \/ CExit(c) \/ CPutBack(c)
+        \/ \E c \in Callers : CLookup(c) \/ CAcquire(c) \/ InvokeOK(c) \/ InvokeFails(c) \/ CPutBack(c)
+Steps(c) == CAcquire(c) \/ InvokeOK(c) \/ InvokeFails(c) \/ CPutBack(c)
 Spec == Init /\ [][Next]_s /\ WF_s(UTake) /\ WF_s(UClose) /\ \A c \in Callers : WF_s(Steps(c))
 
 InvC32_Exclusive == C32_Exclusive(Cardinality(InPrompter))
@@ -88,6 +96,10 @@ InvC32_NoPanic == C32_NoPanic(s.panics)
 InvMonitors == s.bad = {}
 \* the holder never holds more than the one prompter; a send never blocks
 InvHolder == s.tok \in 0..1 /\ (s.tok = 1 => \A c \in Callers : s.cpc[c] \notin {"in", "putback"})
+\* there is exactly one prompter: in the holder, with the caller that invokes it / is about to put it
+\* back (after success or failure alike), or with the unregistration that took it for good
+Holders == Cardinality({c \in Callers : s.cpc[c] \in {"in", "putback"}}) + (IF s.upc \in {"got", "returned"} THEN 1 ELSE 0)
+InvTokenOnce == s.panics = 0 => s.tok + Holders = 1
 \* nobody is left blocked: unregistration returns, every call returns
 LiveUnregisterReturns == (s.upc = "removed") ~> (s.upc = "returned")
 LiveCallsReturn == \A c \in Callers : (s.cpc[c] = "have") ~> (s.cpc[c] = "idle")
